@@ -25,7 +25,7 @@ theorem sync_inv (db : DB) (inv : DiskInv db) (hs : SizeOK db) :
     rw [this]
     exact ⟨inv, rfl, by simpa using hp, rfl⟩
   | false =>
-    obtain ⟨L, hL, invL, absL, pL, oL, _, _, _⟩ := sync_logWritten db inv hp hs.1
+    obtain ⟨L, hL, invL, absL, pL, oL, _, _, _, _⟩ := sync_logWritten db inv hp hs.1
     rw [hL]
     split
     · have hwf : IndexWF L.index :=
@@ -112,12 +112,8 @@ theorem inv_change (db : DB) (inv : DiskInv db) (k : Key) (hk : k < 2^64) (idx' 
     exact inv.files j r hj'.2 hr'
   · exact inv.dflags
   · exact inv.dat1
-  · intro ho j hj
-    rcases hkeys j hj with rfl | h
-    · exact (mem_pendingAdd _ _ _).mpr (Or.inl rfl)
-    · exact (mem_pendingAdd _ _ _).mpr (Or.inr (inv.dat2 ho j h))
+  · exact inv.dat2
   · exact inv.dreads
-  · exact inv.dat3
 
 /-! ### operations that only change flags -/
 
@@ -163,10 +159,8 @@ theorem inv_flags (db : DB) (inv : DiskInv db) (idx' : List (Key × Rec))
       exact h3
   · exact inv.dflags
   · exact inv.dat1
-  · intro ho j hj
-    exact inv.dat2 ho j (by rw [← hkeys]; exact hj)
+  · exact inv.dat2
   · exact inv.dreads
-  · exact inv.dat3
 
 theorem applyBF_lt (fl res : Nat) (h : fl < 2^32) : applyBrowsingFlags fl res < 2^32 := by
   have hs : ∀ x bit, (bit = 1 ∨ bit = 2) → x < 2^32 → setFlag x bit < 2^32 := by
@@ -200,7 +194,7 @@ theorem applyBF_lt (fl res : Nat) (h : fl < 2^32) : applyBrowsingFlags fl res < 
 
 theorem inv_noSync (db : DB) (inv : DiskInv db) (b : Bool) : DiskInv { db with noSync := b } :=
   ⟨inv.cached, inv.nv, inv.wf, inv.nodup, inv.pnodup, inv.pkeys, inv.ver, inv.verlt, inv.dseq, inv.logst,
-   inv.log1, inv.log2, inv.clean, inv.files, inv.dflags, inv.dat1, inv.dat2, inv.dreads, inv.dat3⟩
+   inv.log1, inv.log2, inv.clean, inv.files, inv.dflags, inv.dat1, inv.dat2, inv.dreads⟩
 
 /-- size and width side conditions of one operation (the data file stays below 4 GiB, keys are 64-bit,
     flags 32-bit) -/
@@ -230,6 +224,49 @@ theorem afterChange_inv (M : DB) (k : Key) (hM : DiskInv (addPending M k)) (hs :
   split
   · exact (sync_inv _ hM hs).1
   · exact hM
+
+theorem putExt_addPending_inv (db : DB) (inv : DiskInv db) (k : Key) (v : Bytes) (f : Nat) (hk : k < 2^64)
+    (hv : v.length < 2^32) (hf : f < 2^32) (hnc : hasFlag f NO_CACHE = false) :
+    DiskInv (addPending (memput db k (newRec v f)) k) := by
+  obtain ⟨e, n, m, hmp⟩ := memput_same db k (newRec v f)
+  have hrec : RecCached (newRec v f) ∧ RecWF (k, newRec v f) := by
+    refine ⟨⟨rfl, hnc⟩, hk, hf, ?_⟩
+    show u32 v.length = v.length
+    exact Nat.mod_eq_of_lt hv
+  rw [addPending_same, hmp]
+  apply inv_change db inv k hk
+  · intro j hj
+    rw [ilookup_iset]
+    have : ¬ k = j := fun e' => hj e'.symm
+    simp [this]
+  · exact allCached_iset inv.cached.2 k _ hrec.1
+  · intro kr hkr
+    rcases mem_iset k _ db.index kr hkr with h | h
+    · rw [h]; exact hrec.2
+    · exact inv.wf kr h
+  · exact nodup_iset k _ db.index inv.nodup
+  · intro j hj
+    rw [keys_iset] at hj
+    split at hj
+    · exact Or.inr hj
+    · rcases List.mem_append.mp hj with h | h
+      · exact Or.inr h
+      · simp at h; exact Or.inl h
+
+theorem del_addPending_inv (db : DB) (inv : DiskInv db) (k : Key) (hk : k < 2^64) :
+    DiskInv (addPending (memdel db k) k) := by
+  obtain ⟨e, n, hmd⟩ := memdel_same db k
+  rw [addPending_same, hmd]
+  exact inv_change db inv k hk (ierase k db.index) e n db.maxSeq
+    (by
+      intro j hj
+      rw [ilookup_ierase _ _ _ inv.nodup]
+      have : ¬ k = j := fun e' => hj e'.symm
+      simp [this])
+    (allCached_ierase inv.cached.2 k)
+    (fun kr hkr => inv.wf kr (mem_ierase k db.index kr hkr))
+    (nodup_ierase k db.index inv.nodup)
+    (fun j hj => Or.inr (keys_ierase_sub k db.index j hj))
 
 theorem putExt_inv (db : DB) (inv : DiskInv db) (k : Key) (v : Bytes) (f : Nat) (hk : k < 2^64)
     (hv : v.length < 2^32) (hf : f < 2^32) (hnc : hasFlag f NO_CACHE = false)
@@ -441,8 +478,7 @@ theorem fresh_inv (load : Bool) (opts : Opts) : DiskInv (openDB {} false load op
   · intro k r _ h; cases h
   · intro kr h; cases h
   · intro h; cases h
-  · intro _ k h; cases h
+  · intro _ kr h; cases h
   · intro kr h; cases h
-  · intro _; rfl
 
 end GocoinV.Proofs.C19
